@@ -87,7 +87,14 @@ FusionRequired(d, a) ==
               IN OrfPeptides(o.pep, C.cfg, TRUE, o.open, TRUE) : H \in FusedHaps(d, a, TRUE)} \ (DonorRef(d) \cup Canonical)
 AllObs == {C.allobs[k] : k \in 1..Len(C.allobs)}
 
+(* recorded finding (crash): a donor-side variant that leaves exactly one reference base before the junction together with an *)
+(* acceptor-side variant (record start, i.e. the anchor base of an indel) one base after the junction                          *)
+TightJunction(d, a) ==
+  LET V == FusedVars(d, a, FALSE)  nd == Len(DonorSeq(C.chrom, C.dtx[d], C.lb))
+  IN \E v \in V : \E w \in V : v.end = nd - 1 /\ w.start = nd + 1
+
 Verdict ==
+  /\ Clause("info_tight_junction", ~\E k \in 1..Len(C.records) : TightJunction(C.records[k].d, C.records[k].a))
   /\ Clause("skipped_when_insufficient_or_unknown", (~C.enough \/ ~C.known) => Len(C.records) = 0)
   /\ Clause("one_record_per_eligible_pair",
        (C.enough /\ C.known) => GotPairs = EligiblePairs /\ Len(C.records) = Cardinality(EligiblePairs))
